@@ -4,7 +4,7 @@
 (* validated against the actions of KernelOutput, and the property clauses of  *)
 (* KernelOutput are evaluated over the recorded facts.                         *)
 (*                                                                             *)
-(* case  = [id, scheme, pre, ver, split, nruns, fs0, events, fin]              *)
+(* case  = [id, scheme, pre, ver, proc, split, nruns, fs0, events, fin]        *)
 (* event = [run, call, name, res, cls, fs, tmps, stray]  (the directory        *)
 (*          projected after the call: fs = final kernel files, list of [name,  *)
 (*          by, w, content, inner]; tmps = temporary files, list of [by,       *)
@@ -21,12 +21,12 @@ EXTENDS Naturals, Integers, Sequences, FiniteSets, TLC, Json, IOUtils
 
 Cases == JsonDeserialize(IOEnv.PV_CASES)
 
-VARIABLES scheme, pre, ver, split, fs, tmp, pc, idx, fd, used, seen, res, lastOp  \* KernelOutput
+VARIABLES scheme, pre, ver, split, proc, known, fs, tmp, pc, idx, fd, used, seen, res, lastOp  \* KernelOutput
 VARIABLES cid, pos, off, fails, divs, tv
 M == INSTANCE KernelOutput WITH MaxRuns <- 3, RunCounts <- {1, 2, 3},
         Schemes <- {"multiple", "single"}, Versions <- {1, 2}, PreChoices <- {0, 1, 2},
         SplitChoices <- BOOLEAN
-mvars == <<scheme, pre, ver, split, fs, tmp, pc, idx, fd, used, seen, res, lastOp>>
+mvars == <<scheme, pre, ver, split, proc, known, fs, tmp, pc, idx, fd, used, seen, res, lastOp>>
 vars  == <<mvars, cid, pos, off, fails, divs, tv>>
 
 TRange(s) == {s[i] : i \in DOMAIN s}
@@ -53,15 +53,16 @@ Init ==
   /\ LET c == Cases[cid] IN
      /\ scheme = c.scheme /\ pre = c.pre /\ split = c.split
      /\ ver = [r \in M!Runs |-> c.ver[r]]
+     /\ proc = [r \in M!Runs |-> c.proc[r]]
      /\ fs = FsOf(c.fs0)
-     /\ pc = [r \in M!Runs |-> IF r > c.nruns THEN "off"
-                                 ELSE IF c.scheme = "single" THEN "mktemp" ELSE "create"]
+     /\ pc = [r \in M!Runs |-> IF r > c.nruns THEN "off" ELSE "idle"]
      /\ res = [r \in M!Runs |-> IF r <= c.nruns THEN "run" ELSE "off"]
      \* the directory the runs start from must be the model's initial one
      /\ divs = IF FsOf(c.fs0) = (IF c.pre = 0 THEN <<>> ELSE
                    (M!Nm(0) :> [by |-> 0, w |-> {}, content |-> M!VName(c.pre), inner |-> 0]))
                THEN 0 ELSE 1
   /\ tmp = [r \in M!Runs |-> M!NoTmp]
+  /\ known = [p \in M!Runs |-> {}]
   /\ idx = [r \in M!Runs |-> 0]
   /\ fd = [r \in M!Runs |-> ""]
   /\ used = [r \in M!Runs |-> -1]
@@ -96,7 +97,7 @@ Event ==
                                bypc |-> IF fs[e.name].by \in M!Runs
                                         THEN pc[fs[e.name].by] ELSE "done"]]
                       ELSE seen
-           /\ UNCHANGED <<scheme, pre, ver, split, pc, idx, fd, used, res>>
+           /\ UNCHANGED <<scheme, pre, ver, split, proc, known, pc, idx, fd, used, res>>
      /\ fails' = fails \cup StepFails(fs', seen', RunsOf(c))
      /\ pos' = pos + 1
      /\ UNCHANGED <<cid, tv>>
